@@ -425,10 +425,13 @@ def elem_types_of(container: V, limit: V, what: str = "elem_of") -> V:
 def comp_covers_all(comp: V, container: V, what: str, limit: V) -> Tuple[bool, str]:
     """comp is an unfiltered comprehension over exactly `container` (or the matching view) whose element is
     get_type(<that element>, limit)."""
-    if isinstance(comp, K) and isinstance(comp.v, tuple) and len(comp.v) == 1 and comp.v[0] == R("typeof", of=R(what, of=container), limit=limit):
-        # a generator helper interpreted eagerly: its loop ran over the container's representative element, unfiltered
-        # (a test on the element would have been an undecided branch), and yielded get_type of it
-        return True, ""
+    if isinstance(comp, K) and isinstance(comp.v, tuple) and comp.v and all(x == R("typeof", of=R(what, of=container), limit=limit) for x in comp.v):
+        # a generator helper interpreted eagerly: its loop ran TWICE over the container's representative element and yielded
+        # get_type of it both times (a test on the element is an undecided branch; a filter that remembers what it has seen
+        # yields nothing the second time)
+        if len(comp.v) == 2:
+            return True, ""
+        return False, f"the helper yields {len(comp.v)} type(s) for two elements of the same class: elements are skipped or repeated"
     if not (isinstance(comp, R) and comp.kind == "comp"):
         return False, f"not a comprehension over the container: {comp}"
     if comp.fields["ifs"]:
